@@ -368,7 +368,10 @@ func init() {
 			return tFalse
 		},
 		"H.vNow": func(e *Exec, th *Thread, a []Value) Value {
-			return e.clockRead()
+			// harness-side clock readings are part of the witness (the native replay runs on this virtual clock)
+			t := e.clockRead()
+			e.nondets = append(e.nondets, NondetRec{Tag: "clock", Kind: "int", terms: []*Term{t}})
+			return t
 		},
 		"H.vQuiesce": func(e *Exec, th *Thread, a []Value) Value {
 			// let every other thread run until none can
